@@ -396,7 +396,7 @@ H_ApiCall(s, r, l) ==
   ELSE IF r.op \in {"send", "send_batchable"} THEN
        LET k == LinkByName(s, r.lname, TRUE) IN
        IF k = 0 THEN R(s, 0) ELSE R(SetL(s, k, [s.ls[k] EXCEPT !.sendsIssued = @ + 1, !.touched = TRUE,
-                                                !.sendq = Append(@, [call |-> r.call, m |-> r.args.m, did |-> -1, presettled |-> (s.ls[k].snd = 1 \/ (s.ls[k].snd = 2 /\ r.args.settled = "t")), outcome |-> "none", done |-> FALSE])]), 0)
+                                                !.sendq = Append(@, [call |-> r.call, m |-> r.args.m, did |-> -1, presettled |-> (s.ls[k].snd = 1 \/ (s.ls[k].snd = 2 /\ r.args.settled = "t")), outcome |-> "none", done |-> FALSE, ret |-> FALSE])]), 0)
   ELSE IF r.op = "dispose" THEN
        LET k == LinkByName(s, r.lname, FALSE)
            st == CASE r.args.state = "accept" -> "accepted" [] r.args.state = "reject" -> "rejected" [] r.args.state = "release" -> "released" [] OTHER -> "modified" IN
@@ -484,6 +484,11 @@ H_ApiRet(s, r, l) ==
        LET k == PeerDetachedWithError(s, r.lname) IN
        R(SetL(s, k, [s.ls[k] EXCEPT !.errTold = TRUE, !.sendsIssued = IF @ > s.ls[k].delsDone THEN @ - 1 ELSE @]),
          Chk("C13_PeerError", r.res.cond = s.ls[k].pDetErr \/ (s.appTeardown /\ r.res.says_sess), l, r.op))
+  ELSE IF r.op = "send_batchable" /\ r.res.ok THEN
+       \* the delivery has been handed to the session: from here on it is "queued"
+       LET k == LinkByName(s, r.lname, TRUE) IN
+       IF k = 0 THEN R(s, 0) ELSE
+       R(SetL(s, k, [s.ls[k] EXCEPT !.sendq = [n \in DOMAIN @ |-> IF @[n].call = r.call THEN [@[n] EXCEPT !.ret = TRUE] ELSE @[n]]]), 0)
   ELSE IF r.op \in {"send", "await_outcome"} /\ r.res.ok THEN
        LET k == LinkByName(s, r.lname, TRUE)
            c == IF r.op = "send" THEN r.call ELSE r.of IN
@@ -518,7 +523,9 @@ SessErrFor(s, lname) == LET k == LastIdx(s.ls, LAMBDA y : y.name = lname /\ y.eA
 FailureClauses(s, r, l) ==
   IF r.op \notin DataPath THEN 0 ELSE
     \* a data-path call issued after the connection broke must fail
-    Chk("C14_DataPathErr", ~(ConnDead(s) /\ s.deadAt > 0 /\ StartedAt(s, r.call) > s.deadAt) \/ ~r.res.ok, l, r.op)
+    \* (the outcome of a pre-settled delivery is known without the peer)
+    Chk("C14_DataPathErr", ~(ConnDead(s) /\ s.deadAt > 0 /\ StartedAt(s, r.call) > s.deadAt) \/ ~r.res.ok
+                           \/ (r.op = "await_outcome" /\ LET k == LinkByName(s, r.lname, TRUE) IN k > 0 /\ \E n \in DOMAIN s.ls[k].sendq : s.ls[k].sendq[n].call = r.of /\ s.ls[k].sendq[n].presettled), l, r.op)
     \* a call on a link whose session the peer has ended must fail
   + Chk("C14_DataPathErr", ~(r.lname # "" /\ SessEndedFor(s, r.lname) /\ r.op \in {"send", "send_batchable", "recv", "dispose"}) \/ ~r.res.ok, l, "after-end")
     \* the error names the scope that stopped ...
@@ -609,7 +616,11 @@ Step(s, r, l) ==
                               \* cancellation never leaves half a delivery on the wire nor a complete delivery undelivered
                               + Chk("C16_NeverPartial", ~ConnUp(s) \/ \A k \in DOMAIN s.ls : ~(s.ls[k].eutSender /\ LinkLiveE(s.ls[k]) /\ ~s.ls[k].pDet /\ s.ls[k].inDel /\ s.ls[k].cancels > 0), l, "")
                               + Chk("C16_NoLoss", ~ConnUp(s) \/ \A k \in DOMAIN s.ls : ~(~s.ls[k].eutSender /\ LinkLiveE(s.ls[k]) /\ ~s.ls[k].pDet /\ ~s.ls[k].broken /\ \E n \in DOMAIN s.ls[k].inq : Eligible(s.ls[k].inq[n])), l, "")
-                              + Chk("C14_TasksEnd", ~ConnDead(s) \/ s.lastAlive <= Len(r.pending), l, ""))
+                              + Chk("C14_TasksEnd", ~ConnDead(s) \/ s.lastAlive <= Len(r.pending), l, "")
+                              \* the peer's close is answered only after what had been handed over before has been written
+                              + Chk("C12_FlushBeforeClose", ~(s.pcloseHeard /\ s.ecloses = 1 /\ ~s.illegal /\ ~s.garbage /\ ~s.noise /\ ~s.appTeardown)
+                                                            \/ \A k \in DOMAIN s.ls : ~(s.ls[k].eutSender /\ s.ls[k].pAtt /\ ~s.ls[k].pDet /\ ~s.ls[k].eDet
+                                                                                       /\ \E n \in DOMAIN s.ls[k].sendq : s.ls[k].sendq[n].ret /\ s.ls[k].sendq[n].did < 0 /\ s.ls[k].sendq[n].presettled), l, ""))
       [] r.ev = "Spin" -> R(s, Fail("C15_Quiesces", l, "spin"))
       [] r.ev = "Hook" -> R([s EXCEPT !.hook = (r.op = "arm")], 0)
       [] r.ev = "Advance" -> R([s EXCEPT !.tol = Max(@, r.step + 2)], 0)
